@@ -130,6 +130,8 @@ def ctx_ops(c):
         ['cb_fail 1', 'parse_buf %s %s' % (c, enc(b'kv { key = val }'))],
         ['addtsec %s %s %s' % (c, enc(b'mt'), enc(b'b'))],
         ['set_pf %s/i 1' % c],
+        ['set_pf_name %s %s 1' % (c, enc(b's'))],
+        ['cb_fail 1', 'parse_buf %s %s' % (c, enc(b'm { }')), 'set_pf_name %s %s 1' % (c, enc(b'm|x')), 'set_vf %s %s 1' % (c, enc(b'm|y'))],
     ]
 
 
@@ -145,6 +147,8 @@ def inst_ops(c, k):
         ['cb_fail 1', 'parse_buf %s %s' % (r, enc(b'x = 3 xl += {8}'))],
         ['cb_fail 1', 'parse_buf %s/km.%d %s' % (c, k, enc(b'newkey = v'))],
         ['set_pf %s/x 1' % r],
+        ['set_pf_name %s %s 1' % (c, enc(b'm|x' if k == 0 else b'm=%d|x' % k))],           # a callback given by path lands in that instance only
+        ['set_pf_name %s %s 1' % (r, enc(b'xl'))],
     ]
 
 
